@@ -134,6 +134,7 @@ def _worker(w, n, modname, tier, seed, conn, counter):
         if hasattr(mod, "setup"):
             mod.setup(tier, seed)
         agg = Agg()
+        hung = 0
         # every worker walks the same deterministic enumeration and claims the next unclaimed index, so each case
         # is executed exactly once whatever the relative speed of the workers (cases are independent of each other)
         with counter.get_lock():
@@ -144,6 +145,13 @@ def _worker(w, n, modname, tier, seed, conn, counter):
                 continue
             res = _run_one(mod, case)
             agg.add(mod, idx, case, res)
+            if res.get("outcome") == "HARNESS-TIMEOUT":
+                hung += 1
+                if hung >= 3:
+                    # the code under test hangs case after case: the run already fails, do not wait 2 minutes per case
+                    with counter.get_lock():
+                        counter.value += 10 ** 9
+                    break
             with counter.get_lock():
                 mine = counter.value
                 counter.value += 1
